@@ -16,9 +16,9 @@ from contracts.metrics import canary_summary
 
 
 def deductive(tier="quick", seed=0):
-    from contracts import popinit
+    from contracts import popinit, seeding
 
-    d = run_tasks(H.update_hof_tasks() + H.tournament_tasks() + popinit.tasks())
+    d = run_tasks(H.update_hof_tasks() + H.tournament_tasks() + popinit.tasks() + seeding.tasks())
     can = run_tasks(H.canary_tasks())
     d.errors.extend(can.errors)
     d.canaries = canary_summary(can)
